@@ -72,7 +72,9 @@ theorem drain_spec : ∀ (n : Nat) (a q : List Change), PairWF a q →
     (∀ x ∈ a, x ∈ (Doc.drain n a q).1) ∧
     (∀ x ∈ (Doc.drain n a q).1, x ∈ a ∨ x ∈ q) ∧
     (∀ x ∈ (Doc.drain n a q).2, x ∈ q)
-  | 0, a, q, h => by simp [Doc.drain]; exact h
+  | 0, a, q, h => by
+    simp only [Doc.drain]
+    exact ⟨h, fun _ hx => hx, fun _ hx => Or.inl hx, fun _ hx => hx⟩
   | n + 1, a, q, h => by
     obtain ⟨i1, i2, i3, i4⟩ := sweep_spec q a h
     unfold Doc.drain
